@@ -1,4 +1,5 @@
 import Librfn.Lemmas.SchedCor
+import Librfn.Model.MainLoop
 /-!
 # C03 — fibre_scheduler_next returns a wake-up time that never oversleeps
 
@@ -9,10 +10,11 @@ specification (every state an in-scope history reaches, `C01.reachable_sim`).
 Scope of this file: the sequential histories of C01/C02 (a `fibre_run_atomic` issued by the dispatched fibre or
 between passes is "an interrupt-context request that completed before the scheduler's final check").
 Interrupt handlers placed *inside* `fibre_scheduler_next` are the extension `wakeup_with_isr`, which belongs to C06.
-Kernel-only.
+The property's last sentence (the consumer `posix/fibre_posix.c: fibre_scheduler_main_loop`, `Model/MainLoop.lean`)
+is the section "the POSIX main loop" at the end.  Kernel-only.
 -/
 namespace Librfn.C03
-open Librfn.Sched Librfn.Model.Fibre Librfn.Spec.Sched Librfn.Sched.L
+open Librfn.Sched Librfn.Model.Fibre Librfn.Spec.Sched Librfn.Sched.L Librfn.Model.MainLoop
 
 /-- the property's formula, literally: `T` when anything is runnable on return (the fibre that just yielded, a
     queued fibre, an accepted atomic request), otherwise the earliest pending due time, otherwise
@@ -124,4 +126,159 @@ example : InScope wakeDemo := by decide
 example : (runModel (wrap wakeDemo)).map (fun o => match o with | .pass p => some p.wake.toNat | _ => none)
     = [some (100 + 0x7fffffff), none, none, some 100, some 120, some 120, none, some 103, some 104] := by decide
 
+/-! ## the POSIX main loop: "a main loop that sleeps until the returned time never delays a runnable fibre or a
+pending timeout"
+
+`T1` = the clock reading passed to the pass, `V` = the true time whose truncation the pass returned
+(`never_oversleeps`: `T1 ≤ V ≤ T1 + 0x7fffffff`, `V ≤` every pending due time, `V = T1` when anything is runnable),
+`T2 ≥ T1` = the clock reading after the pass.  **Window hypothesis, forced by the code**: `T2 - T1 ≤ 2^31`
+(the pass — i.e. the dispatched fibre — took at most 2^31 µs ≈ 35.8 min).  Beyond it `(int32_t)(V - T2)` wraps:
+at `T2 = T1 + 2^31 + 1` with a runnable fibre (`V = T1`) the code computes +2147483647 and sleeps 50 ms
+(`window_is_needed` below; the real code does exactly that, see `harness/h_sched.c` op `loop`). -/
+
+/-- the sleep in closed form inside the window: nothing when the returned time is not in the future, otherwise the
+    interval capped at the 50 ms poll -/
+theorem mainloop_sleep_spec (V T2 : Int) (h : -2147483648 ≤ V - T2 ∧ V - T2 < 2147483648) :
+    posixSleep (w32 V) (w32 T2) = if T2 < V then some (min (V - T2) 50000).toNat else none := by
+  unfold posixSleep cyclecmp32 Librfn.Gen.Util.cyclecmp32
+  simp only
+  rw [sub_toInt_window V T2 h]
+  by_cases h1 : V - T2 < 50000
+  · rw [if_pos h1]
+    by_cases h2 : T2 < V
+    · rw [if_pos (by omega), if_pos h2, Int.min_eq_left (by omega)]
+    · rw [if_neg (by omega), if_neg h2]
+  · rw [if_neg h1, if_pos (by omega), if_pos (by omega), Int.min_eq_right (by omega)]
+
+/-- **the loop never sleeps past the returned time** (and a sleep is a real sleep) -/
+theorem mainloop_never_sleeps_past_returned_time (T1 T2 V : Int) (d : Nat)
+    (h12 : T1 ≤ T2) (hwin : T2 - T1 ≤ 2147483648) (hV1 : T1 ≤ V) (hV2 : V ≤ T1 + 0x7fffffff)
+    (hs : posixSleep (w32 V) (w32 T2) = some d) : 0 < d ∧ T2 + (d : Int) ≤ V := by
+  rw [mainloop_sleep_spec V T2 (by omega)] at hs
+  split at hs
+  · have := Option.some.inj hs; omega
+  · cases hs
+
+/-- the same in the specification's words -/
+theorem mainloop_sleep_ok (T1 T2 V : Int) (h12 : T1 ≤ T2) (hwin : T2 - T1 ≤ 2147483648) (hV1 : T1 ≤ V)
+    (hV2 : V ≤ T1 + 0x7fffffff) : SleepOk V T2 (posixSleep (w32 V) (w32 T2)) := by
+  cases hs : posixSleep (w32 V) (w32 T2) with
+  | none => trivial
+  | some d => exact Or.inr (mainloop_never_sleeps_past_returned_time T1 T2 V d h12 hwin hV1 hV2 hs).2
+
+/-- **no sleep when anything is runnable at return** (then the pass returned `V = T1`), for every `T2 ≥ T1` in the window -/
+theorem mainloop_no_sleep_when_runnable (T1 T2 : Int) (h12 : T1 ≤ T2) (hwin : T2 - T1 ≤ 2147483648) :
+    posixSleep (w32 T1) (w32 T2) = none := by
+  rw [mainloop_sleep_spec T1 T2 (by omega), if_neg (by omega)]
+
+/-- **the loop polls at least every 50 ms** — for all 32-bit values, no hypothesis -/
+theorem mainloop_polls (u n : BitVec 32) (d : Nat) (hs : posixSleep u n = some d) : 0 < d ∧ d ≤ 50000 := by
+  unfold posixSleep at hs
+  simp only at hs
+  by_cases h1 : cyclecmp32 u n < 50000
+  · rw [if_pos h1] at hs
+    by_cases h2 : cyclecmp32 u n > 0
+    · rw [if_pos h2] at hs; have := Option.some.inj hs; omega
+    · rw [if_neg h2] at hs; cases hs
+  · rw [if_neg h1, if_pos (by omega)] at hs; have := Option.some.inj hs; omega
+
+/-- **the loop does not busy-spin while idle**: a returned time after `T2` is slept towards -/
+theorem mainloop_sleeps_when_idle (T1 T2 V : Int) (h12 : T1 ≤ T2) (hV2 : V ≤ T1 + 0x7fffffff) (hidle : T2 < V) :
+    posixSleep (w32 V) (w32 T2) = some (min (V - T2) 50000).toNat ∧ 0 < (min (V - T2) 50000).toNat := by
+  rw [mainloop_sleep_spec V T2 (by omega), if_pos hidle]
+  exact ⟨rfl, by omega⟩
+
+/-- the window hypothesis cannot be dropped: one tick beyond it the code sleeps although a fibre is runnable -/
+theorem window_is_needed : posixSleep (w32 4500) (w32 (4500 + 2147483648 + 1)) = some 50000 := by decide
+
+/-- **D13 (the pinned tree's rule) oversleeps**: a returned time 2000 µs away is answered by a 50000 µs sleep,
+    which the specification forbids; the fixed rule sleeps exactly 2000 -/
+theorem old_mainloop_oversleeps :
+    posixSleepOld (w32 2000) (w32 0) = some 50000 ∧ ¬ SleepOk 2000 0 (posixSleepOld (w32 2000) (w32 0))
+    ∧ posixSleep (w32 2000) (w32 0) = some 2000 := by decide
+
+-- non-vacuity of the arithmetic theorems: a sleep towards a due time over the 0xffffffff→0 seam, capped and uncapped
+example : posixSleep (w32 4294967296) (w32 4294967290) = some 6 := by decide
+example : posixSleep (w32 (4294967290 + 0x7fffffff)) (w32 4294967296) = some 50000 := by decide
+example : posixSleep (w32 100) (w32 (100 + 2147483648)) = none := by decide      -- the edge of the window, runnable
+example : (4294967290 : Int) ≤ 4294967290 ∧ (4294967290 : Int) - 4294967290 ≤ 2147483648 := by decide
+
+/-! ### composed with the scheduler: one iteration of the concrete model's loop -/
+
+/-- the specification's `passWake` is the `V` of `never_oversleeps` -/
+theorem passWake_eq (a : A) (T : Int) (s : List (Call Int)) (ret : Ret) :
+    a.passWake T s ret = (a.next T s ret).1.wake T (yieldedNow a T ret) := rfl
+
+theorem loopOk_spec {a : A} {last : Option Int} {T1 T2 : Int} {s : List (Call Int)} {ret : Ret}
+    (h : loopOk a last T1 T2 s ret = true) :
+    opOk a last (.next T1 s ret) = true ∧ T1 ≤ T2 ∧ T2 - T1 ≤ 2147483648 := by
+  simp only [loopOk, Bool.and_eq_true, decide_eq_true_eq] at h
+  exact ⟨h.1.1, h.1.2, h.2⟩
+
+/-- **the main loop never delays a runnable fibre or a pending timeout** — one iteration of the concrete model's
+    loop (`mainLoopPass`: the model's pass at `w32 T1`, then `posixSleep` of what it returned and `w32 T2`) in any
+    state related to the specification, for an in-scope iteration (`loopOk`):
+    the value handed to the sleep is `w32 V`; what the loop does satisfies the specification `SleepOk V T2`;
+    and if it sleeps `d` then `0 < d ≤ 50000`, **nothing is runnable** at return (the fibre did not yield, run queue
+    and accepted atomic requests are empty) and the sleep ends **no later than every pending due time**;
+    if nothing is due yet (`T2 < V`) it does sleep. -/
+theorem mainloop_never_delays {k : K} {a : A} {last : Option Int} (h : Sim k a last) (T1 T2 : Int)
+    (s : List (Call Int)) (ret : Ret) (hok : loopOk a last T1 T2 s ret = true) :
+    (mainLoopPass k (w32 T1) (w32 T2) (s.map (Call.map w32)) ret).2.1.wake = w32 (a.passWake T1 s ret)
+    ∧ SleepOk (a.passWake T1 s ret) T2 (mainLoopPass k (w32 T1) (w32 T2) (s.map (Call.map w32)) ret).2.2
+    ∧ (∀ d, (mainLoopPass k (w32 T1) (w32 T2) (s.map (Call.map w32)) ret).2.2 = some d →
+        0 < d ∧ d ≤ 50000
+        ∧ ¬ (yieldedNow a T1 ret = true ∨ (a.next T1 s ret).1.rq ≠ [] ∨ (a.next T1 s ret).1.pend ≠ [])
+        ∧ ∀ x ∈ (a.next T1 s ret).1.sleepers, T2 + (d : Int) ≤ x.2)
+    ∧ (T2 < a.passWake T1 s ret →
+        (mainLoopPass k (w32 T1) (w32 T2) (s.map (Call.map w32)) ret).2.2 ≠ none) := by
+  obtain ⟨hok1, h12, hwin⟩ := loopOk_spec hok
+  obtain ⟨hrun, hle, _, hV1, hV2, _⟩ := never_oversleeps h T1 s ret hok1
+  have hw := wakeup_spec h T1 s ret hok1
+  rw [← passWake_eq] at hrun hle hV1 hV2 hw
+  unfold mainLoopPass
+  simp only
+  rw [hw]
+  refine ⟨rfl, mainloop_sleep_ok T1 T2 _ h12 hwin hV1 hV2, ?_, ?_⟩
+  · intro d hs
+    have h1 := mainloop_never_sleeps_past_returned_time T1 T2 _ d h12 hwin hV1 hV2 hs
+    refine ⟨h1.1, (mainloop_polls _ _ d hs).2, ?_, ?_⟩
+    · intro hr
+      have := hrun hr
+      omega
+    · intro x hx
+      have := hle x hx
+      omega
+  · intro hidle
+    rw [(mainloop_sleeps_when_idle T1 T2 _ h12 hV2 hidle).1]
+    exact Option.some_ne_none _
+
+/-- the same after every in-scope history -/
+theorem mainloop_never_delays_history (h : List (Op Int)) (hin : InScope h) (T1 T2 : Int) (s : List (Call Int))
+    (ret : Ret)
+    (hok : loopOk (Spec.Sched.runFrom Spec.Sched.init h).1 (h.foldl lastOf none) T1 T2 s ret = true) (d : Nat)
+    (hs : (mainLoopPass (Model.Fibre.runFrom Model.Fibre.init (wrap h)).1 (w32 T1) (w32 T2)
+            (s.map (Call.map w32)) ret).2.2 = some d) :
+    0 < d ∧ d ≤ 50000
+    ∧ ¬ (yieldedNow (Spec.Sched.runFrom Spec.Sched.init h).1 T1 ret = true
+          ∨ ((Spec.Sched.runFrom Spec.Sched.init h).1.next T1 s ret).1.rq ≠ []
+          ∨ ((Spec.Sched.runFrom Spec.Sched.init h).1.next T1 s ret).1.pend ≠ [])
+    ∧ ∀ x ∈ ((Spec.Sched.runFrom Spec.Sched.init h).1.next T1 s ret).1.sleepers, T2 + (d : Int) ≤ x.2 :=
+  (mainloop_never_delays (refines_from h Model.Fibre.init Spec.Sched.init none sim_init hin).2 T1 T2 s ret hok).2.2.1 d hs
+
+-- non-vacuity: in-scope iterations after an in-scope history in which the model's loop sleeps towards the due time
+-- (1995 µs: the pass took 5 µs), is capped at the poll, and does not sleep because the fibre yielded / the due time passed
+def loopDemo : List (Op Int) := [.run 0]
+
+example : InScope loopDemo
+    ∧ loopOk (Spec.Sched.runFrom Spec.Sched.init loopDemo).1 (loopDemo.foldl lastOf none) 100 105 [.timeout 2100] .waiting = true
+    ∧ (mainLoopPass (Model.Fibre.runFrom Model.Fibre.init (wrap loopDemo)).1 (w32 100) (w32 105)
+        [.timeout (w32 2100)] .waiting).2.2 = some 1995
+    ∧ (mainLoopPass (Model.Fibre.runFrom Model.Fibre.init (wrap loopDemo)).1 (w32 100) (w32 105)
+        [.timeout (w32 2100000)] .waiting).2.2 = some 50000
+    ∧ (mainLoopPass (Model.Fibre.runFrom Model.Fibre.init (wrap loopDemo)).1 (w32 100) (w32 105)
+        [.timeout (w32 2100)] .yielded).2.2 = none
+    ∧ loopOk (Spec.Sched.runFrom Spec.Sched.init loopDemo).1 none 100 2100 [.timeout 2100] .waiting = true
+    ∧ (mainLoopPass (Model.Fibre.runFrom Model.Fibre.init (wrap loopDemo)).1 (w32 100) (w32 2100)
+        [.timeout (w32 2100)] .waiting).2.2 = none := by decide
 end Librfn.C03
